@@ -332,7 +332,7 @@ func (r *Run) Finish() {
 				continue
 			}
 			// confirm determinism: re-execute the witness twice
-			if p.body != nil {
+			if p.body != nil && !v.Observed {
 				ok := 0
 				for i := 0; i < 2; i++ {
 					lim := -1
